@@ -3035,6 +3035,9 @@ class Set(Collection):
         setdata = obj._vals_.get(attr)
         if setdata is None or not setdata.is_fully_loaded: setdata = attr.load(obj)
         reverse = attr.reverse
+        rentity = attr.py_type
+        if reverse.is_collection and rentity._subclasses_:
+            rentity._load_many_(setdata)  # items of a many-to-many collection are known by primary key only: fetch them to learn their real class
         if not reverse.is_collection and reverse.pk_offset is None:
             added = setdata.added or ()
             for item in setdata:
